@@ -38,3 +38,41 @@ c04_ig!(c04_inverse_gaussian_f64, f64);
 //@ funcs: InverseGaussian::<f32>::new
 //@ bounds: every pair of f32 bit patterns
 c04_ig!(c04_inverse_gaussian_f32, f32);
+
+// ------------------------------------------------------------------------------------------
+// C03: never NaN (Michael-Schucany-Haas root selection), two draws
+// ------------------------------------------------------------------------------------------
+macro_rules! c03_ig {
+    ($name:ident, $f:ty) => {
+        vproof_zstub! {
+            fn $name() {
+                let mut rng = SymRng::new(2);
+                let mean: $f = kani::any();
+                let shape: $f = kani::any();
+                let d = match InverseGaussian::<$f>::new(mean, shape) { Ok(d) => d, Err(_) => return };
+                kani::assume(mean >= 1e-3 && mean <= 1e3 && shape >= 1e-3 && shape <= 1e3);
+                let x: $f = d.sample(&mut rng);
+                vassert!(x == x, "InverseGaussian sample is NaN");
+                vassert!(rng.pos == 2, "InverseGaussian consumes one normal and one uniform draw");
+                kani::cover!(true, "sample returned");
+            }
+        }
+    };
+}
+//@ id: c03_inverse_gaussian_f32
+//@ prop: C03
+//@ tier: quick
+//@ cap: 900
+//@ funcs: InverseGaussian::<f32>::new; InverseGaussian::<f32>::sample
+//@ bounds: mean, shape in [1e-3, 1e3]; every normal draw in [-13.8, 13.8] (contract) incl. exactly 0; every uniform word
+//@ assumes: utils::ziggurat, libm::sqrtf by contract; only non-NaN and the word count are asserted (positivity needs cancellation analysis)
+c03_ig!(c03_inverse_gaussian_f32, f32);
+//@ id: c03_inverse_gaussian_f64
+//@ besteffort: yes
+//@ prop: C03
+//@ tier: thorough
+//@ cap: 1500
+//@ funcs: InverseGaussian::<f64>::new; InverseGaussian::<f64>::sample
+//@ bounds: as c03_inverse_gaussian_f32
+//@ assumes: utils::ziggurat, libm::sqrt by contract
+c03_ig!(c03_inverse_gaussian_f64, f64);
